@@ -59,6 +59,8 @@ def setup():
     return v
   global PROBE, BOOM, CONSUMER
   PROBE, BOOM, CONSUMER = probe, boom, consumer
+  from vf import sched
+  sched.install_model_locks()
 
 
 ENTRY = {
